@@ -2,7 +2,10 @@
 
 Inside a `FaultFS(root, plan)` context every state-changing file-system operation on a path under
 `root` is logged as one *event*; files opened for writing are wrapped in a proxy that forwards to an
-unbuffered real file, so everything "written" has been handed to the OS. A *crash plan*
+unbuffered real file. The proxy models Python's own buffering: with the default `buffering` argument the
+bytes of `write()` calls stay in user space (they are LOST by a crash) until `flush()`, `close()` or until
+io.DEFAULT_BUFFER_SIZE bytes have accumulated; only then do they become a "write" event, i.e. are handed
+to the OS. A file opened with buffering=0 hands every write over at once. A *crash plan*
 (event index, byte offset | None) makes the process "die" at that instant:
 
     (i, None)  -> before event i happens
@@ -28,25 +31,48 @@ class Crash(BaseException):
 
 
 class _Proxy:
-    def __init__(self, fs, real, path):
+    def __init__(self, fs, real, path, buffered=False):
         self._fs, self._real, self._path = fs, real, path
         self.closed = False
         self.name = path
         self.mode = getattr(real, "mode", "wb")
+        self._buffered = buffered
+        self._buf = bytearray()  # bytes still in user space
+
+    def _to_os(self, data):
+        """One write event: the bytes reach the file (or a prefix of them, if the plan crashes inside)."""
+        n = self._fs._before("write", self._path, len(data), real=self._real, data=data)
+        if n is not None:  # crash inside this write after n bytes (already written by _before)
+            raise Crash
+        self._real.write(data)
+
+    def _drain(self):
+        if self._buf:
+            data = bytes(self._buf)
+            self._buf.clear()
+            self._to_os(data)
 
     def write(self, data):
         data = bytes(data) if not isinstance(data, (bytes, str)) else data
         if isinstance(data, str):
             data = data.encode()
-        n = self._fs._before("write", self._path, len(data), real=self._real, data=data)
-        if n is not None:  # crash inside this write after n bytes (already written by _before)
+        if self._fs.crashed:
             raise Crash
-        self._real.write(data)
+        if not self._buffered:
+            self._to_os(data)
+            return len(data)
+        if len(self._buf) + len(data) >= io.DEFAULT_BUFFER_SIZE:
+            self._drain()
+        if len(data) >= io.DEFAULT_BUFFER_SIZE:
+            self._to_os(data)
+        else:
+            self._buf += data
         return len(data)
 
     def flush(self):
         if self._fs.crashed:
             raise Crash
+        self._drain()
         self._real.flush()
 
     def close(self):
@@ -55,6 +81,7 @@ class _Proxy:
         if self._fs.crashed:
             self.closed = True
             raise Crash
+        self._drain()
         self._fs._before("close", self._path)
         self.closed = True
         self._real.close()
@@ -63,7 +90,7 @@ class _Proxy:
         return self._real.fileno()
 
     def tell(self):
-        return self._real.tell()
+        return self._real.tell() + len(self._buf)
 
     def writable(self):
         return True
@@ -146,14 +173,14 @@ class FaultFS:
             path = self._fds.pop(file)
             if self.crashed:
                 raise Crash
-            return _Proxy(self, real_open(file, mode.replace("t", "") if "b" in mode else mode, 0 if "b" in mode else buffering, *a, **k), path)
+            return _Proxy(self, real_open(file, mode.replace("t", "") if "b" in mode else mode, 0 if "b" in mode else buffering, *a, **k), path, buffered=buffering != 0)
         if not isinstance(file, int) and self._under(file) and any(c in mode for c in "wax+"):
             if "b" not in mode:
                 # text mode writes are forwarded through a binary unbuffered file as well
                 self._before("open-" + mode.replace("t", ""), file)
-                return _TextProxy(self, real_open(file, mode.replace("t", "") + "b", 0), os.fspath(file))
+                return _TextProxy(self, real_open(file, mode.replace("t", "") + "b", 0), os.fspath(file), buffered=True)
             self._before("open-" + mode, file)
-            return _Proxy(self, real_open(file, mode, 0), os.fspath(file))
+            return _Proxy(self, real_open(file, mode, 0), os.fspath(file), buffered=buffering != 0)
         if self.crashed and not isinstance(file, int) and self._under(file):
             raise Crash
         return real_open(file, mode, buffering, *a, **k)
